@@ -10,3 +10,4 @@ import DSymVerif.Props.C09
 #print axioms DSymVerif.C09.cones_are_traced_words
 #print axioms DSymVerif.C09.fg_total
 #print axioms DSymVerif.C09.generator_facet_pairs
+#print axioms DSymVerif.C09.textbook_onto_returned
